@@ -198,6 +198,15 @@ def context_cases(ctx: Ctx) -> List[Dict[str, Any]]:
         out.append(base(between={"M1-M3": [kind]}))
         out.append(base(between={"M3-M5": [kind]}))
         out.append(base(between={"pre": [kind], "M1-M3": [kind], "M3-M5": [kind]}))
+    # object lifecycle: the application (which supplies its own event loop) starts the driver — the normal production
+    # state —, stops it and starts the SAME object again; only then, or in the middle of the exchange (the controller
+    # reconnects), the controller with the correct code runs
+    out.append(base(between={"pre": ["start"]}))
+    out.append(base(between={"pre": ["start", "stop", "start"]}))
+    out.append(base(between={"pre": ["start", "stop", "start", "stop", "start"]}))
+    out.append(base(between={"pre": ["start"], "M1-M3": ["stop", "start"]}))
+    out.append(base(between={"pre": ["start"], "M3-M5": ["stop", "start"]}))
+    out.append(base(prefix=[pre("abandon-M4", 0)], between={"pre": ["start", "stop", "start", "made-lost"]}))
     # another accessory with another setup code in the same process was used first / the setup code of this
     # driver was changed after an earlier exchange: the controller with the CURRENT code of THIS accessory completes
     for same in (False, True, False, True):
@@ -214,6 +223,12 @@ def context_cases(ctx: Ctx) -> List[Dict[str, Any]]:
         if rng.random() < 0.6:
             c["between"] = {pos: [rng.choice(BYSTANDERS) for _ in range(rng.randrange(0, 3))]
                             for pos in ("pre", "M1-M3", "M3-M5")}
+        if rng.random() < 0.35:   # the driver object has been started (and possibly stopped and started again)
+            c.setdefault("between", {})
+            c["between"]["pre"] = ["start"] + ["stop", "start"] * rng.choice([0, 1, 1, 2]) + c["between"].get("pre", [])
+            if rng.random() < 0.3:
+                pos = rng.choice(["M1-M3", "M3-M5"])
+                c["between"][pos] = c["between"].get(pos, []) + ["stop", "start"]
         out.append(c)
     return out
 
@@ -337,8 +352,17 @@ def run_exchange(case: Dict[str, Any]):
     try:
         for p in case.get("prefix", []):
             _run_prefix(sc, code, p)
-        for k in between.get("pre", []):
-            sc.bystander(k)
+        def interlude(pos):
+            nonlocal conn
+            for k in between.get(pos, []):
+                if k in LIFECYCLE:
+                    sc.lifecycle(k)
+                    if k == "start" and pos != "pre":
+                        conn += 10   # a restart closes every connection: the controller continues on a new one
+                else:
+                    sc.bystander(k)
+
+        interlude("pre")
         r = sc.send(pc.m1_body(), salt, secret, conn=conn, idents=[ident])
         t = pc.parse(r["body"]) if r["status"] == 200 else None
         if not t or t.get(pc.T_STATE) != b"\x02" or pc.T_ERROR in t or pc.T_SALT not in t or pc.T_PUBLIC_KEY not in t:
@@ -349,8 +373,7 @@ def run_exchange(case: Dict[str, Any]):
         v["lead"] = {"A": 384 - len(cl.A_bytes), "B": 384 - len(t[pc.T_PUBLIC_KEY]),
                      "S": 384 - len(ref.i2b(cl.S)), "K": len(cl.K) - len(cl.K.lstrip(b"\x00"))}
         v["stage"] = "M3"
-        for k in between.get("M1-M3", []):
-            sc.bystander(k)
+        interlude("M1-M3")
         r = sc.send(pc.m3_body(cl.A_bytes, cl.M1), salt, secret, conn=conn)
         t = pc.parse(r["body"]) if r["status"] == 200 else None
         if not t or t.get(pc.T_STATE) != b"\x04" or pc.T_ERROR in t:
@@ -361,8 +384,7 @@ def run_exchange(case: Dict[str, Any]):
             return sc, v
         v["stage"] = "M5"
         sub, ltpk = pc.m5_subtlv(cl.K, ident, ltsk)
-        for k in between.get("M3-M5", []):
-            sc.bystander(k)
+        interlude("M3-M5")
         r = sc.send(pc.m5_body(cl.K, sub), salt, secret, conn=conn)
         if r["status"] != 200:
             v["why"] = f"M5 answered with HTTP {r['status']}"
@@ -423,6 +445,7 @@ def _honest_run(sc, code: bytes, seed: int, full: bool):
 FAILED_ATTEMPTS = ("wrong-code", "wrong-proof", "bogus-M3", "short-M3", "garbage", "M3-no-M1", "degenerate", "bad-M5")
 ABANDONED = ("abandon-M1", "abandon-M4")
 BYSTANDERS = ("made-lost", "get-lost", "get")
+LIFECYCLE = ("start", "stop")   # the application starts / stops the SAME driver object (its own event loop stays alive)
 
 
 def _run_prefix(sc, code: bytes, p: Dict[str, Any]):
@@ -492,6 +515,10 @@ def _context(case) -> str:
         parts.append("bystander-connection-lost")
     if "get" in by:
         parts.append("bystander-request")
+    if "stop" in by:
+        parts.append("after-driver-restart")
+    elif "start" in by:
+        parts.append("driver-started")
     if case.get("before"):
         parts.append("after-setup-code-change" if case["before"].get("same_driver") else "after-exchange-on-another-accessory")
     return "+".join(parts)
@@ -561,8 +588,10 @@ def run(ctx: Ctx):
         "v,k,B,u,S,K,Kb,M,HAMK,verify byte for byte, and every other function of the class called on its own: "
         "_get_private_key, _get_verifier, _get_k, _derive_B, get_challenge, _padN, _get_K, _get_M, _get_HAMK, "
         "get_session_key, get_session_key_bytes), exchange (reference controller M1..M6 against the real "
-        "handler and against PairSetup.lean; also after failed / abandoned attempts on the same or another connection "
-        "and with bystander connections made/lost or refused requests between the controller's messages).  Non-trivial: a numeric/exchange case that reaches set_A+verify "
+        "handler and against PairSetup.lean; also after failed / abandoned attempts on the same or another connection, "
+        "with bystander connections made/lost or refused requests between the controller's messages, and on a driver object "
+        "that the application has started, stopped and started again — real async_start / async_stop on its own loop — "
+        "before or in the middle of the exchange).  Non-trivial: a numeric/exchange case that reaches set_A+verify "
         "(all do); distinct by (code, salt, b, A / a)."
     )
     lines: List[Dict[str, Any]] = []
@@ -639,7 +668,7 @@ def run(ctx: Ctx):
             st.hit("op", "prefix-" + p["kind"] + ("-other-conn" if p["conn"] != case.get("conn", 0) else ""))
         for pos, ks in case.get("between", {}).items():
             for k in ks:
-                st.hit("op", f"bystander-{k}@{pos}")
+                st.hit("op", (f"lifecycle-{k}@{pos}" if k in LIFECYCLE else f"bystander-{k}@{pos}"))
         if case.get("before"):
             st.hit("op", "world-" + ("setup-code-changed" if case["before"].get("same_driver") else "other-accessory-first"))
         st.hit("outcome", "exchange-" + ("completed" if v["ok"] else "failed-at-" + v["stage"]))
